@@ -225,11 +225,49 @@ out:
     ZSTD_freeCCtx(cctx); free(content); free(comp);
 }
 
+/* side 2: dense capacity sweep (EVERY capacity 0 .. N+40) over small frames: the legacy frames of tests/legacy.c (one per supported version) and small modern frames;
+ * one-shot into guard-paged exact-size destinations (both alignments) and streaming with the same total room */
+extern const char* const COMPRESSED; extern size_t const COMPRESSED_SIZE;
+static void run_lcase(long idx)
+{
+    vrng r = vr_make(V.seed, 306, (uint64_t)idx);
+    const uint8_t* b = (const uint8_t*)COMPRESSED; size_t starts[40]; int nsf = 0;
+    for (size_t i = 0; i + 4 <= COMPRESSED_SIZE && nsf < 39; i++) if (b[i + 1] == 0xB5 && b[i + 2] == 0x2F && b[i + 3] == 0xFD && b[i] >= 0x25 && b[i] <= 0x28) starts[nsf++] = i;
+    starts[nsf] = COMPRESSED_SIZE; if (!nsf) return;
+    uint8_t* frame; size_t fs; const char* kind; uint8_t tmp[4096];
+    if (idx % 2 == 0) { int const k = (int)((idx / 2) % nsf); frame = (uint8_t*)b + starts[k]; fs = starts[k + 1] - starts[k]; kind = b[starts[k]] == 0x28 ? "modern(legacy.c)" : b[starts[k]] == 0x27 ? "v0.7" : b[starts[k]] == 0x26 ? "v0.6" : "v0.5"; }
+    else { uint8_t x[700]; size_t const n = 1 + vr_u(&r, 600); gen_data(&r, x, n, (int)vr_u(&r, DF_NB)); ZSTD_CCtx* c = ZSTD_createCCtx(); ZSTD_CCtx_setParameter(c, ZSTD_c_compressionLevel, (int)vr_range(&r, 1, 19)); ZSTD_CCtx_setParameter(c, ZSTD_c_minMatch, 3); ZSTD_CCtx_setParameter(c, ZSTD_c_checksumFlag, (int)vr_u(&r, 2));
+        fs = ZSTD_compress2(c, tmp, sizeof tmp, x, n); ZSTD_freeCCtx(c); if (ZSTD_isError(fs)) return; frame = tmp; kind = "modern-small"; }
+    gbuf in = gb_alloc(fs, 0); memcpy(in.p, frame, fs);
+    uint8_t ref[8192]; size_t const N = ZSTD_decompress(ref, sizeof ref, in.p, fs);
+    if (ZSTD_isError(N)) { v_viol("dense:valid-small-frame-rejected", "kind=%s: %s", kind, ZSTD_getErrorName(N)); gb_free(&in); return; }
+    ZSTD_DCtx* d = ZSTD_createDCtx();
+    for (size_t c = 0; c <= N + 40; c++) for (int mode = 0; mode < 2; mode++) {
+        gbuf out = gb_alloc(c, mode);
+        size_t const rr = ZSTD_decompressDCtx(d, out.p, c, in.p, fs);
+        if (!gb_ok(&out)) v_viol("decode:write-outside-dst(canary)", "dense sweep kind=%s cap=%zu content=%zu", kind, c, N);
+        if (!ZSTD_isError(rr) && rr > c) v_viol("decode:returned-size-exceeds-capacity", "dense sweep kind=%s cap=%zu ret=%zu", kind, c, rr);
+        if (c < N && !ZSTD_isError(rr)) v_viol("decode:success-with-capacity-below-content", "dense sweep kind=%s cap=%zu content=%zu", kind, c, N);
+        if (c >= N && (ZSTD_isError(rr) || rr != N || memcmp(out.p, ref, N))) v_viol("decode:fails-with-sufficient-capacity", "dense sweep kind=%s cap=%zu content=%zu", kind, c, N);
+        if (mode == 0) {   /* streaming with the same total room, input in small slices */
+            ZSTD_DCtx_reset(d, ZSTD_reset_session_only); ZSTD_inBuffer ib = { in.p, 0, 0 }; ZSTD_outBuffer ob = { out.p, c, 0 }; size_t const step = 1 + vr_u(&r, 9); size_t ret = 1; int g = 0;
+            while (!ZSTD_isError(ret) && ret != 0 && ++g < 20000) { size_t const ip0 = ib.pos, op0 = ob.pos; if (ib.pos == ib.size) ib.size = V_MIN(fs, ib.size + step); ret = ZSTD_decompressStream(d, &ob, &ib); if (!ZSTD_isError(ret) && ib.pos == ip0 && ob.pos == op0 && ib.size == fs) break; }
+            if (!gb_ok(&out)) v_viol("decode:write-outside-dst(canary)", "dense sweep (streaming) kind=%s cap=%zu content=%zu", kind, c, N);
+            if (ob.pos > c) v_viol("decode:returned-size-exceeds-capacity", "dense sweep (streaming) kind=%s", kind);
+            if (!ZSTD_isError(ret) && ret == 0 && (ob.pos != N || memcmp(out.p, ref, N))) v_viol("decode:wrong-output", "dense sweep (streaming) kind=%s cap=%zu", kind, c);
+            ZSTD_DCtx_reset(d, ZSTD_reset_session_only); }
+        v_stat("decode_capacity_runs", 1); v_stat("dense_sweep_runs", 1);
+        gb_free(&out); }
+    v_cell("dense_kind", "%s", kind); v_stat("dense_frames", 1);
+    v_sample("dense capacity sweep: kind=%s frame=%zu bytes content=%zu capacities 0..%zu", kind, fs, N, N + 40);
+    ZSTD_freeDCtx(d); gb_free(&in);
+}
+
 int main(int argc, char** argv)
 {
     v_init(argc, argv);
     g_maxSize = (size_t)v_opt_long("maxsize", V.thorough ? (1 << 20) : (200 << 10));
     int const side = (int)v_opt_long("side", 0);
-    for (long i = V.from; i < V.to; i++) { v_case(i); v_budget(900); if (side == 0) run_case(i); else run_dcase(i); }
+    for (long i = V.from; i < V.to; i++) { v_case(i); v_budget(900); if (side == 0) run_case(i); else if (side == 1) run_dcase(i); else run_lcase(i); }
     return v_finish();
 }
